@@ -261,6 +261,50 @@ func runC13(c *core.Ctx) {
 			})
 		}
 	}
+	// ---------------- rules that only show across definitions, broken by a LATER load: the base is loaded (accepted), then one
+	// extension unit that makes the whole ill-formed (an interface gains a field its implementers lack, an object claims an
+	// interface it does not satisfy, a non-object joins a union, a duplicate enum value / field). The later load must be refused.
+	for bi, b := range bases {
+		if len(b.Blocks) > 0 {
+			continue
+		}
+		for xi, bad := range c16Breakers(b) {
+			wf := bad.WellFormed()
+			if len(wf) == 0 {
+				c.Count("breakers_discarded_by_reference")
+				continue
+			}
+			if !c.Owns(fmt.Sprintf("later-load|%d|%d", bi, xi)) {
+				continue
+			}
+			units := bad.Units()
+			ext := units[len(units)-1].Text()
+			c.Eval()
+			c.R.Distinct++
+			c.Nontrivial()
+			root := ggql.NewRoot(nil)
+			var err1, err2 error
+			pi := core.Safe(func() {
+				if err1 = root.ParseString(b.SDL()); err1 == nil {
+					err2 = root.ParseString(ext)
+				}
+			})
+			d := map[string]interface{}{"schema": fmt.Sprintf("base S%d", bi), "route": "sdl, two loads", "sdl": b.SDL(), "later_load": ext, "rule": wf[0].Rule}
+			switch {
+			case pi != nil:
+				d["diff"] = pi.Value
+				c.Violation("panic", map[string]string{"site": pi.Site, "class": pi.Class, "route": "later-load", "rule": wf[0].Rule}, d)
+			case err1 != nil:
+				panic(core.EngineError{Msg: "base refused: " + err1.Error()})
+			case err2 == nil:
+				c.Outcome("accepted-invalid")
+				d["diff"] = "the later load makes the schema break " + wf[0].Rule + " but was accepted"
+				c.Violation("accepted-invalid", map[string]string{"rule": wf[0].Rule, "site": "later-load:" + string(bad.Defs[len(bad.Defs)-1].Kind), "route": "later-load"}, d)
+			default:
+				c.Outcome("rejected-later-load")
+			}
+		}
+	}
 	// ---------------- directive definition graphs (rule "no definition cycles"): every digraph of directive uses on
 	// directive arguments over 3 directives with one argument (thorough: 4), and over 2 directives with two arguments.
 	// Accepted iff acyclic; refused naming a directive that lies on a cycle.
